@@ -10,8 +10,12 @@ OUT = "/verif/variants"
 
 V = []  # (prop, name, kind, expects, [(file, old, new), ...], comment)
 
-def v(prop, name, kind, expects, edits, comment=""):
+BASES = {}  # (prop, name) -> keep-ext patch applied before the edits
+
+def v(prop, name, kind, expects, edits, comment="", base=None):
     V.append((prop, name, kind, expects, edits, comment))
+    if base:
+        BASES[(prop, name)] = base
 
 # ---------------------------------------------------------------- C01
 v("C01", "enable-upper-inclusive", "break", ["C01.enable"], [("log_level.go",
@@ -556,6 +560,24 @@ v("C20", "async-choice-negated-form", "keep", [], [("plugin_logger.go",
   "\tif f.AsyncWrite {\n\t\treturn initRollingFileLogger(f, func(f *RollingFileLogger) Logger {\n\t\t\treturn &AsyncLogger{\n\t\t\t\tLoggerBase:       f.LoggerBase,\n\t\t\t\tBufferSize:       f.BufferSize,\n\t\t\t\tBufferFullPolicy: f.BufferFullPolicy,\n\t\t\t}\n\t\t})\n\t} else {\n\t\treturn initRollingFileLogger(f, func(f *RollingFileLogger) Logger {\n\t\t\treturn &SyncLogger{\n\t\t\t\tLoggerBase: f.LoggerBase,\n\t\t\t}\n\t\t})\n\t}",
   "\tif !f.AsyncWrite {\n\t\treturn initRollingFileLogger(f, func(f *RollingFileLogger) Logger {\n\t\t\treturn &SyncLogger{\n\t\t\t\tLoggerBase: f.LoggerBase,\n\t\t\t}\n\t\t})\n\t}\n\treturn initRollingFileLogger(f, func(f *RollingFileLogger) Logger {\n\t\treturn &AsyncLogger{\n\t\t\tLoggerBase:       f.LoggerBase,\n\t\t\tBufferSize:       f.BufferSize,\n\t\t\tBufferFullPolicy: f.BufferFullPolicy,\n\t\t}\n\t})")])
 
+# ---------------------------------------------------------------- breaks on top of the sub-agents' refactorings (keep-ext): the rule fires in the refactored shape too
+v("C18", "ext-helper-alphabet-open", "break", ["C18.alphabet"], [("log_tag.go", "\tcase c >= '0' && c <= '9':\n\t\treturn true", "\tcase c >= '0' && c < '9':\n\t\treturn true")], base="keep-ext/C18-r4a.patch")
+v("C07", "ext-helper-skips-escaper", "break", ["C09.use"], [("field_encoder.go", "\tenc.buf.WriteByte('\"')\n\tWriteLogString(enc.buf, s)\n\tenc.buf.WriteByte('\"')", "\tenc.buf.WriteByte('\"')\n\tenc.buf.WriteString(s)\n\tenc.buf.WriteByte('\"')")], base="keep-ext/C07-r4a.patch")
+v("C10", "ext-helper-calls-hook-twice", "break", ["C10.once"], [("log.go", "\tif StringFromContext != nil {\n\t\treturn StringFromContext(ctx)\n\t}\n\treturn \"\"", "\tif StringFromContext != nil {\n\t\t_ = StringFromContext(ctx)\n\t\treturn StringFromContext(ctx)\n\t}\n\treturn \"\"")], base="keep-ext/C10-r4a.patch")
+v("C10", "ext-helper-used-elsewhere", "break", ["C10.hook-sites"], [("log_logger.go", "func (m *LoggerWrapper) Write(b []byte) (n int, err error) {", "func (m *LoggerWrapper) Write(b []byte) (n int, err error) {\n\t_ = eventTime(nil)")], base="keep-ext/C10-r4a.patch")
+v("C13", "ext-helper-forgets-close", "break", ["C05.close-all", "C05.fd-bound"], [("plugin_appender.go", "\tif file := p.Swap(nil); file != nil {\n\t\t_ = file.Sync()\n\t\t_ = file.Close()\n\t}", "\tif file := p.Swap(nil); file != nil {\n\t\t_ = file.Sync()\n\t}")], base="keep-ext/C13-r4a.patch")
+v("C04", "ext-enqueue-sends-wrapper", "break", ["C04.worker:send-types"], [("plugin_logger.go", "\tc.enqueue(b)\n}", "\tc.enqueue(string(b))\n}")], base="keep-ext/C04-r4c.patch")
+v("C14", "ext-predicate-drops-shape", "break", ["C14.guards"], [("plugin_appender.go", "\t_, err := time.Parse(\"20060102150405\", suffix)\n\treturn err == nil", "\treturn suffix != \"\"")], base="keep-ext/C14-r4a.patch")
+v("C16", "ext-unbind-helper-skips-handles", "break", ["C16.unbind"], [("log_refresh.go", "\tfor _, l := range loggerMap {\n\t\tl.logger = nil\n\t}\n}", "}")], base="keep-ext/C16-r4a.patch")
+v("C02", "ext-helper-accepts-bad-wildcard", "break", ["C02.validate"], [("log_refresh.go", "\t\tif strings.Contains(tag, \"*\") {\n\t\t\tif !strings.HasSuffix(tag, \"_*\") {\n\t\t\t\treturn nil, errutil.Explain(nil, \"tag '%s' is invalid\", tag)\n\t\t\t}\n\t\t}\n", "")], base="keep-ext/C02-r4b.patch")
+v("C09", "ext-width-always-one", "break", ["C09.utf8"], [("field_encoder.go", "\t\t\t\twidth = size\n", "")], base="keep-ext/C09-r4a.patch")
+v("C17", "ext-unescape-wrong-n", "break", ["C17.escapes"], [("expr/parse.go", "\tcase 'n':\n\t\treturn '\\n'", "\tcase 'n':\n\t\treturn '\\r'")], base="keep-ext/C17-r4b.patch")
+v("C08", "ext-reset-helper-wrong-depth", "break", ["C08.delegate"], [("field_encoder.go", "func (enc *TextEncoder) resetAtTopLevel() {\n\tif enc.jsonDepth == 0 {", "func (enc *TextEncoder) resetAtTopLevel() {\n\tif enc.jsonDepth == 1 {")], base="keep-ext/C08-r4a.patch")
+v("C03", "ext-finish-helper-returns-alias", "break", ["C03.alias"], [("plugin_layout.go", "\tbuf.WriteByte('\\n')\n\treturn bytes.Clone(buf.Bytes())\n}", "\tbuf.WriteByte('\\n')\n\treturn buf.Bytes()\n}")], base="keep-ext/C03-r4a.patch")
+v("C01", "ext-ctor-ranges-overlap", "break", ["C01.split"], [("plugin_logger.go", "newRollingFileAppenderRef(f, layout, f.FileName+\".wf\", normalMaxLevel, f.Level.MaxLevel))", "newRollingFileAppenderRef(f, layout, f.FileName+\".wf\", f.Level.MinLevel, f.Level.MaxLevel))")], base="keep-ext/C01-r4c.patch")
+v("C16", "ext-ctor-nil-layout", "break", ["C16.iface-fields"], [("plugin_logger.go", "\t\tnewRollingFileAppenderRef(f, layout, f.FileName, f.Level.MinLevel, normalMaxLevel),", "\t\tnewRollingFileAppenderRef(f, f.Layout, f.FileName, f.Level.MinLevel, normalMaxLevel),")], base="keep-ext/C01-r4c.patch")
+v("C20", "ext-named-ctor-wrong-flag", "break", ["C20.async-opt-in"], [("plugin_logger.go", "\tif f.AsyncWrite {\n\t\treturn initRollingFileLogger(f, newRollingAsyncLogger)", "\tif f.Separate {\n\t\treturn initRollingFileLogger(f, newRollingAsyncLogger)")], base="keep-ext/C20-r4c.patch")
+
 
 def main():
     for k in ("break", "keep"):
@@ -567,6 +589,28 @@ def main():
     for prop, name, kind, expects, edits, comment in V:
         files = {}
         ok = True
+        based = {}
+        if (prop, name) in BASES:
+            import subprocess, tempfile, shutil
+            tmp = tempfile.mkdtemp(prefix="mkvar-", dir="/var/tmp")
+            subprocess.run(["rsync", "-a", "--exclude", ".git", "--exclude", "logs", "--exclude", "benchmarks", REPO + "/", tmp + "/"], check=True)
+            pr = subprocess.run(["patch", "-p1", "-s", "-f", "--no-backup-if-mismatch", "-i", os.path.join(OUT, BASES[(prop, name)])], cwd=tmp, capture_output=True, text=True)
+            if pr.returncode != 0:
+                print(f"!! {prop}-{name}: base patch does not apply: {pr.stdout[:200]}")
+                shutil.rmtree(tmp); bad += 1; continue
+            for root, _, fs in os.walk(tmp):
+                for f in fs:
+                    if f.endswith(".go") or f.endswith(".g4"):
+                        rel = os.path.relpath(os.path.join(root, f), tmp)
+                        cur = open(os.path.join(root, f)).read()
+                        orig_p = os.path.join(REPO, rel)
+                        orig = open(orig_p).read() if os.path.exists(orig_p) else ""
+                        if cur != orig:
+                            based[rel] = cur
+            shutil.rmtree(tmp)
+            for rel, cur in based.items():
+                files[rel + "#orig"] = open(os.path.join(REPO, rel)).read()
+                files[rel] = cur
         for fn, old, new in edits:
             src = files.get(fn)
             if src is None:
